@@ -1,21 +1,27 @@
 /-
 Compiler correctness (Props/Refine.lean), part 3: expressions.
 
-`expr_sim`: for every expression of the core `InCore`, compiled at any index `base`
+`expr_sim`: for every expression of the core `InCore lf`, compiled at any index `base`
 (`CodeAt c base (exprCode base loop e)`: the chunk may hold anything before and after), from any
-VM state `st` (any value stack, any captures / output / block bookkeeping; the evaluator reads
-`st.scope`, the very `Scope` the VM state holds):
+VM state `st` (any value stack, any captures / output / block bookkeeping) whose scope corresponds
+to the evaluator's scope `sc` (`ScopeSim sc st.scope`, Lemmas/RefineScope.lean):
 
-* `evalExpr fuel eenv st.scope e = .ok v`  ⟹  the interpreter loop runs from `pc = base` to
+* `evalExpr fuel eenv sc e = .ok v`  ⟹  the interpreter loop runs from `pc = base` to
   `pc = base + |code|`, ends in `st.push v rg` (the SAME state with exactly one more slot, holding
   `v`; `rg` is a span range both of whose ends carry a span), executes only instructions of
-  `[base, base + |code|)`, at most `|code|` of them (= the step fuel needed);
+  `[base, base + |code|)` — at most `|code|` of them (= the step fuel needed) when `lf = true`,
+  i.e. on the loop-free core (no list comprehension);
 * `evalExpr … = .error err`, `err` reportable  ⟹  the loop ends in a rendering error of the class
-  of `err` (`errMatch`) after at most `|code|` instructions of that range — no panic, no
-  `unmodelled`, no running out of fuel.
+  of `err` (`errMatch`) after instructions of that range — no panic, no `unmodelled`, no running
+  out of fuel;
 
-Induction on the evaluator's fuel (every recursive call of `evalExpr` is at `fuel`), generalised
-over the code position, the loop context and the VM state.
+and this whatever the nested interpreter `rec` of `Vm.step` is (`Run`, `Fails` quantify over it).
+
+Induction on the evaluator's fuel (every recursive call of `evalExpr` and of its helpers is at
+`fuel`): `SimAt fuel` holds the statement for expressions, optional slice bounds, array entries,
+map entries, keyword arguments and the loop of a comprehension at that level; `simAt` proves
+`SimAt 0` (everything is "out of fuel") and `SimAt fuel → SimAt (fuel + 1)`, one `*_step` theorem
+per component, generalised over the code position, the compiler's loop context and the VM state.
 -/
 import TeraModel.Lemmas.RefineInstr6
 namespace Tera.Refine
@@ -1642,6 +1648,16 @@ theorem expr_sim (hE : EnvRel venv eenv) (hB : BuiltinsRel venv eenv)
       CodeAt c base (exprCode base loop e) →
       ExprOutcome venv vm c lf (evalExpr fuel eenv sc e) base (exprCode base loop e).length st :=
   fun fuel => (simAt hE hB ht fuel).expr
+
+/-- the simulation theorem for keyword arguments (statements with arguments use it) -/
+theorem kwargs_sim (hE : EnvRel venv eenv) (hB : BuiltinsRel venv eenv)
+    (ht : reportTargetOk venv vm c = true) :
+    ∀ (fuel : Nat) (kwargs : List (String × Expr)), (∀ p ∈ kwargs, InCore lf p.2) →
+    ∀ (base : Nat) (loop : Option Nat) (st : State) (sc : Scope), ScopeSim sc st.scope →
+    CodeAt c base (kwargsCode base loop kwargs) →
+    KwOutcome venv vm c lf (evalKwargs fuel eenv sc kwargs) base
+      (kwargsCode base loop kwargs).length st :=
+  fun fuel => (simAt hE hB ht fuel).kw
 
 end
 end Tera.Refine
